@@ -48,7 +48,12 @@ def check_frame_decoder(ctx, f, G1='G1', G2='G2'):
     B = hirq.Body(f, f.hir[dp])
     ctx.analysed['bodies'].add(dp)
     buf = ('param', [d['name'] for b, d in B.defs.items() if d['kind'] == 'param'][0])
-    outs = absx.Interp(f, B, local_try=True).run()          # (a `?` inside a helper expanded into the decoder leaves that helper)
+    # (local_try: a `?` inside a helper expanded into the decoder leaves that helper; combinators: what the decoder answers is read
+    # through the Option / Result adaptors it is passed through - `Ok(frame(buf)?.filter(pred))` around the body answers Ok(None)
+    # wherever the body does, and wherever pred rejects what the body delivers)
+    I = absx.Interp(f, B, local_try=True, combinators=True)
+    I.cast_ranges = True          # (.. and a test of a value narrowed under a range test is decided from that test: `id as i32 >= 0` under `id <= i32::MAX as u64`)
+    outs = I.run()
     def parse_calls(o):
         return [e for e in o.st.ev if e[0] == 'call' and e[1] == 'lber::parse::Parser::parse']
     def mutations(o):
@@ -83,9 +88,12 @@ def check_frame_decoder(ctx, f, G1='G1', G2='G2'):
         if is_none:
             n_none += 1
             ctx.add(G1 + '.need-more-only-on-incomplete', dp, loc(B.root), is_err is True and inc is True,
-                    '`Ok(None)` is returned on a path where the parser did not report Incomplete')
+                    '`Ok(None)` is returned on a path where the parser did not report Incomplete' + (
+                        ' but handed over a complete element: the frame has arrived and is neither delivered nor rejected - to the transport Ok(None) means "nothing to '
+                        'decode yet, read the socket first", so complete frames buffered behind this one wait for the peer\'s next byte' if is_err is False else ''))
             ctx.add(G1 + '.buffer-intact-before-need-more', dp, loc(B.root), not muts,
-                    'the buffer is modified (%s) before asking for more bytes: bytes of the partial frame are lost' % [m[1].split('::')[-1] for m in muts])
+                    'the buffer is modified (%s) before asking for more bytes: %s' % ([m[1].split('::')[-1] for m in muts],
+                        'the complete frame the parser handed over is taken out of the buffer and then answered "need more" - it is lost' if is_err is False else 'bytes of the partial frame are lost'))
         else:
             if inc is True:
                 other_answer.append(o); continue
